@@ -135,6 +135,50 @@ def shard(args):
                     acc.case(True, key=("long", spec, columns), sample=case)
                     acc.transitions += 1
                     check(acc, f, fc, columns, case)
+    # two wraps alive at the same time, consumed interleaved (same value with two limits; a value and a longer value sharing its runs)
+    kk = 0
+    for text in ("aＥaＥaaＥ", "ＥＥaaa\u0300aＥa", "aaaaaaaaaa", "ＥaＥaＥaＥaＥ"):
+        for spec in C.cuts(text, max_runs=2):
+            kk += 1
+            if kk % nshards != idx:
+                continue
+            f = C.build(spec)
+            g = f + C.build(((("zＥz"), (("bg", 45),)),))
+            for c1, c2 in ((2, 3), (3, 5), (7, 4), (4, 4)):
+                seq1 = [C.cells(x) for x in f.width_aware_splitlines(c1)]
+                seq2 = [C.cells(x) for x in g.width_aware_splitlines(c2)]
+                it1, it2 = f.width_aware_splitlines(c1), g.width_aware_splitlines(c2)
+                got1, got2 = [], []
+                for _ in range(40):
+                    a = next(it1, None)
+                    b = next(it2, None)
+                    if a is None and b is None:
+                        break
+                    if a is not None:
+                        got1.append(C.cells(a))
+                    if b is not None:
+                        got2.append(C.cells(b))
+                case = {"f": C.show_spec(spec), "columns": [c1, c2], "op": "two wraps consumed interleaved"}
+                acc.case(True, key=("il", spec, c1, c2), sample=case)
+                acc.transitions += 1
+                if got1 != seq1 or got2 != seq2:
+                    acc.failure("C11:interleaved_wraps_interfere", case, "interleaved %r / %r, one at a time %r / %r" % (got1, got2, seq1, seq2))
+    # every attribute kind on the run that is cut at a line end (the padding space must carry all of them)
+    kk = 0
+    rich = [(("fg", 31),), (("bg", 44),)] + [((st, True),) for st in C.STYLE_NAMES] + [(("bg", 41), ("bold", True), ("fg", 32), ("underline", True))]
+    for att in rich:
+        for lead in ("", "a", "aa", "aaa"):
+            kk += 1
+            if kk % nshards != idx:
+                continue
+            spec = ((lead, ()), ("ＥaＥ", att), ("Ｅ", ()))
+            f = C.build(spec)
+            fc = C.cells(f)
+            for columns in (2, 3, 4, 5):
+                case = {"f": C.show_spec(spec), "columns": columns}
+                acc.case(True, key=("rich", spec, columns), sample=case)
+                acc.transitions += 1
+                check(acc, f, fc, columns, case)
     # values whose runs are the same objects repeated (f*2, f+f, join)
     j = 0
     for n in range(1, 4 if not thorough else 5):
